@@ -1,7 +1,7 @@
 """C12 — compaction only discards bytes nobody can reach: structural clauses (DESIGN §4 C12)."""
 from order import M, names
 from common import AnchorMissing
-from props.c05 import flush_before_punch, PUNCH, PUNCH_HOLES
+from props.c05 import flush_before_punch, pending_holes_occupied, PUNCH, PUNCH_HOLES
 
 EXPLANATION = (
     "Ordering / held-lock / who-may-call / constant-operand rules over the MIR of Database::compact, punch_holes and "
@@ -73,6 +73,8 @@ def run(ctx, chk):
     anchors.check(ctx, chk, ['punch', 'promote_reads_pending'])
     flush_before_punch(ctx, chk, "B12.1")
     punch_lock_rules(ctx, chk, "B12.2")
+    # B12.4 what becomes a punchable hole at compact's own flush was never grown into: pending holes are occupied space
+    pending_holes_occupied(ctx, chk, "B12.4")
     ph = O.body(PUNCH_HOLES)
     tail_sites = O.need_sites(ph, PUNCH, 1)
     # B12.3 KEEP_SIZE
